@@ -48,6 +48,19 @@ Theorem C18_common_ancestors : forall (g : graph) (s1 s2 : list nat), wf g ->
     forall x, In x r <-> maximal_in g (common_of g s1 s2) x.
 Proof. exact common_ancestors_thm. Qed.
 
+(** heads_from_range_and_filter as the revset engine calls it for heads(roots..heads & f)
+    when every parent is followed: exactly the maximal commits among the ancestors of [heads]
+    that are not ancestors of [roots] and pass the filter, strictly descending; the two
+    heaps (wanted / unwanted) terminate within their fuel. *)
+Theorem C18_heads_range : forall (g : graph) roots heads flt hi, wf g ->
+  (forall i, length (parents g i) <= hi) -> (forall h, In h heads -> h < length g) ->
+  heads_range g roots heads 0 hi flt = Some (spec_heads_range g roots heads flt) /\
+  sdesc (spec_heads_range g roots heads flt) /\
+  forall x, In x (spec_heads_range g roots heads flt) <->
+    maximal_in g (fun y => y < length g /\ (exists h, In h heads /\ anc g y h) /\
+                           ~ (exists r0, In r0 roots /\ anc g y r0) /\ flt y = true) x.
+Proof. exact heads_range_thm. Qed.
+
 (** all_heads_pos: the positions that are nobody's parent = the maximal elements of the
     whole index, ascending. *)
 Theorem C18_all_heads : forall (g : graph), wf g ->
@@ -154,3 +167,4 @@ Print Assumptions C18_common_ancestors.
 Print Assumptions C18_generation.
 Print Assumptions C18_codec_roundtrip.
 Print Assumptions C18_abs_flat.
+Print Assumptions C18_heads_range.
